@@ -212,4 +212,146 @@ theorem svcDrain_spec (fuel : Nat) (v : Svc) (hi : SInv v) (hq : v.q.stopped = f
                 | true => simp [fire, hx, hq, hsg] at h5
               exact ⟨hi, trivial, ⟨⟨hsc, hsg, hb, ht⟩, hcur⟩, trivial⟩
 
+/-! ### all schedules, not one scheduler -/
+
+/-- the steps of the queue loop and of `runQueue` (no new requests, no shutdown);
+`Execute` may fail (without effect) any number of times -/
+inductive SStep where
+  | execOk | execFail (k : ErrKind) | take | send | recv | fire
+deriving Repr, DecidableEq
+
+def sstep (v : Svc) : SStep → Option Svc
+  | .execOk => step v .execOk
+  | .execFail k => step v (.execFail k)
+  | .take => step v .take
+  | .send => (Queue.send v.q).map (fun _ => next v (.queue .send))
+  | .recv => (Queue.recv v.q).map (fun _ => next v (.queue .recv))
+  | .fire => (Queue.fire v.q).map (fun _ => next v (.queue .fire))
+
+def SStep.isFail : SStep → Bool
+  | .execFail _ => true
+  | _ => false
+
+def runS (v : Svc) : List SStep → Option Svc
+  | [] => some v
+  | st :: rest => (sstep v st).bind (fun v' => runS v' rest)
+
+/-- nothing but a failing `Execute` could still happen -/
+def QuiescentS (v : Svc) : Prop := ∀ st : SStep, st.isFail = false → sstep v st = none
+
+theorem sstep_spec (v v' : Svc) (st : SStep) (hi : SInv v) (h : sstep v st = some v') :
+    SInv v' ∧ nu v' + (if st.isFail then 0 else 1) ≤ nu v ∧ env v'.q = env v.q ∧ flags v' = flags v := by
+  cases st with
+  | execOk =>
+    have h : step v .execOk = some v' := h
+    obtain ⟨a, b, c⟩ := execOk_nu v v' h
+    exact ⟨step_inv _ _ _ hi h, by simp [SStep.isFail]; omega, b, c⟩
+  | execFail k =>
+    have h : step v (.execFail k) = some v' := h
+    have hi' := step_inv _ _ _ hi h
+    simp only [step] at h
+    split at h
+    · cases h
+    · split at h
+      · cases h; exact ⟨hi', by simp [SStep.isFail, nu], rfl, rfl⟩
+      · cases h
+  | take =>
+    have h : step v .take = some v' := h
+    obtain ⟨a, b, c⟩ := take_nu v v' h
+    exact ⟨step_inv _ _ _ hi h, by simp [SStep.isFail]; omega, b, c⟩
+  | send =>
+    simp only [sstep] at h
+    cases h3 : Queue.send v.q with
+    | none => simp [h3] at h
+    | some q' =>
+      simp only [h3, Option.map_some, Option.some.injEq] at h
+      subst h
+      obtain ⟨m1, m2, _, _⟩ := send_mu _ _ h3
+      obtain ⟨a, b, c⟩ := queue_step_nu v .send q' rfl h3 (by omega) m2
+      exact ⟨next_inv v _ hi, by simp [SStep.isFail]; omega, b, c⟩
+  | recv =>
+    simp only [sstep] at h
+    cases h3 : Queue.recv v.q with
+    | none => simp [h3] at h
+    | some q' =>
+      simp only [h3, Option.map_some, Option.some.injEq] at h
+      subst h
+      obtain ⟨m1, m2, _⟩ := recv_mu _ _ h3
+      obtain ⟨a, b, c⟩ := queue_step_nu v .recv q' rfl h3 m1 m2
+      exact ⟨next_inv v _ hi, by simp [SStep.isFail]; omega, b, c⟩
+  | fire =>
+    simp only [sstep] at h
+    cases h3 : Queue.fire v.q with
+    | none => simp [h3] at h
+    | some q' =>
+      simp only [h3, Option.map_some, Option.some.injEq] at h
+      subst h
+      obtain ⟨m1, m2, _, _⟩ := fire_mu _ _ hi.reach.inv h3
+      obtain ⟨a, b, c⟩ := queue_step_nu v .fire q' rfl h3 (by omega) m2
+      exact ⟨next_inv v _ hi, by simp [SStep.isFail]; omega, b, c⟩
+
+theorem runS_spec (sched : List SStep) (v v' : Svc) (hi : SInv v) (h : runS v sched = some v') :
+    SInv v' ∧ nu v' + (sched.filter (fun st => !st.isFail)).length ≤ nu v ∧
+    env v'.q = env v.q ∧ flags v' = flags v := by
+  induction sched generalizing v with
+  | nil => simp only [runS, Option.some.injEq] at h; subst h; exact ⟨hi, by simp, rfl, rfl⟩
+  | cons st rest ih =>
+    simp only [runS] at h
+    cases h1 : sstep v st with
+    | none => simp [h1] at h
+    | some v1 =>
+      simp only [h1, Option.bind_some] at h
+      obtain ⟨a, b, c, d⟩ := sstep_spec v v1 st hi h1
+      obtain ⟨a', b', c', d'⟩ := ih v1 a h
+      refine ⟨a', ?_, c'.trans c, d'.trans d⟩
+      simp only [List.filter_cons]
+      cases hf : st.isFail <;> simp [hf] at b ⊢ <;> omega
+
+theorem allApplied_of_quiescent (v : Svc) (hq : v.q.stopped = false) (hv : v.stopped = false)
+    (h : QuiescentS v) : AllApplied v := by
+  have h1 := h .execOk rfl
+  have h2 := h .take rfl
+  have h3 := h .send rfl
+  have h4 := h .recv rfl
+  have h5 := h .fire rfl
+  simp only [sstep] at h1 h2 h3 h4 h5
+  have hcur : v.cur = none := by
+    cases hx : v.cur with
+    | none => rfl
+    | some r => simp [step, hv, hx] at h1
+  have hsc : v.q.sendCh = none := by
+    cases hx : v.q.sendCh with
+    | none => rfl
+    | some r =>
+      simp only [step, hv, hcur, hx] at h2
+      simp at h2
+      split at h2 <;> cases h2
+  have h3' : Queue.send v.q = none := by
+    cases hx : Queue.send v.q with
+    | none => rfl
+    | some _ => simp [hx] at h3
+  have h4' : Queue.recv v.q = none := by
+    cases hx : Queue.recv v.q with
+    | none => rfl
+    | some _ => simp [hx] at h4
+  have h5' : Queue.fire v.q = none := by
+    cases hx : Queue.fire v.q with
+    | none => rfl
+    | some _ => simp [hx] at h5
+  have hsg : v.q.sending = none := by
+    cases hx : v.q.sending with
+    | none => rfl
+    | some r => simp [send, hx, hsc] at h3'
+  have hb : v.q.batchCh = [] := by
+    cases hx : v.q.batchCh with
+    | nil => rfl
+    | cons a t =>
+      cases a <;> simp [recv, hx, hq, hsg] at h4'
+      all_goals (split at h4' <;> cases h4')
+  have ht : v.q.timer = false := by
+    cases hx : v.q.timer with
+    | false => rfl
+    | true => simp [fire, hx, hq, hsg] at h5'
+  exact ⟨⟨hsc, hsg, hb, ht⟩, hcur⟩
+
 end RqModel.QueueSvc
